@@ -48,7 +48,10 @@ fn field<const L: usize, const E: u8>(s: &SauceString<L, E>) -> Vec<u8> {
 
 /// text of `len` non-NUL CP437 bytes whose last byte is not a pad, followed by `trailing` pads
 fn text(r: &mut StdRng, len: usize, max: usize, trailing: &str, ascii_only: bool) -> Vec<u8> {
-    let mut v: Vec<u8> = (0..len).map(|_| if ascii_only { r.gen_range(33..127u8) } else { r.gen_range(1..=255u8) }).collect();
+    // content classes of CP437 text: any byte; the low glyphs 0x01..0x1F between ASCII (no byte >= 0x80 in the string: a shortcut for
+    // "ASCII-looking" strings must still map them); only the upper half
+    let class = if ascii_only { 1 } else { r.gen_range(0..8u8) };
+    let mut v: Vec<u8> = (0..len).map(|_| match class { 1 => r.gen_range(33..127u8), 2 | 3 => if r.gen_bool(0.4) { r.gen_range(1..32u8) } else { r.gen_range(33..127u8) }, 4 => r.gen_range(128..=255u8), _ => r.gen_range(1..=255u8) }).collect();
     if let Some(l) = v.last_mut() {
         if *l == b' ' {
             *l = b'#';
